@@ -2,10 +2,10 @@
 PROPS["C10"] = dict(
     props_file="Properties/C10.v",
     harnesses=[dict(cmd="refcache", mod="root", model="Model.Refcache", quick=800, thorough=20000, shard=800,
-                    require=["kind.lru", "kind.ttl", "op.add", "op.get", "op.rel", "op.rel.evict", "op.remove", "op.expire",
+                    require=["kind.lru", "kind.ttl", "op.add", "op.get", "op.rel", "op.rel.evict", "op.rel2", "cap.negative", "op.remove", "op.expire",
                              "result.add.existing", "result.get.miss", "result.callback.add", "result.callback.rel",
                              "result.callback.remove", "result.callback.expire"])],
-    rule="random histories of Add/Get/Remove/Expire/Release(evict?) over 4 keys on LRUCache (cap 0..4) and TTLCache; "
+    rule="random histories of Add/Get/Remove/Expire/Release(evict?)/two-concurrent-calls-of-one-done-closure over 4 keys on LRUCache (MaxEntries -3..4) and TTLCache; "
          "non-trivial = at least one OnEvicted callback and >= 3 distinct op kinds; distinct = distinct (cap, ops, outputs)",
     assumptions=[
         "sync.Mutex / sync.Once behave as documented; every cache method is atomic under the cache mutex (so a schedule is an op list)",
